@@ -531,10 +531,10 @@ func (e *Engine) fmtDecimal(st *State, x *Term, signed bool, width int, zero, mi
 			digits := make([]*Term, k)
 			var side []*Term
 			for i := 0; i < k; i++ {
-				d := c.Fresh("digit", SBV(64))
+				d := c.Fresh("digit", SBV(4))
 				digits[i] = d
-				side = append(side, c.BVUle(d, c.BV(9, 64)))
-				sum = c.BVAdd(sum, c.BVMul(d, c.BV(pow10tab[i], 64)))
+				side = append(side, c.BVUle(d, c.BV(9, 4)))
+				sum = c.BVAdd(sum, c.BVMul(c.ZeroExt(d, 60), c.BV(pow10tab[i], 64)))
 			}
 			side = append(side, c.Eq(mag, sum))
 			cond = c.And(append([]*Term{cond}, side...)...)
@@ -543,7 +543,7 @@ func (e *Engine) fmtDecimal(st *State, x *Term, signed bool, width int, zero, mi
 				b = append(b, c.BV('-', 8))
 			}
 			for i := k - 1; i >= 0; i-- {
-				b = append(b, c.BVAdd(c.Extract(digits[i], 7, 0), c.BV('0', 8)))
+				b = append(b, c.Concat(c.BV(3, 4), digits[i]))
 			}
 			s := StrV{B: b}
 			if !(zero && !minus) {
